@@ -6,6 +6,9 @@ props=[json.loads(l) for l in open('/verif/properties.jsonl')]
 ids=[p['id'] for p in props]
 TB="trusted base: the gosym executor written for this task (validated by `gosym selftest` and by native replay of every counterexample), golang.org/x/tools/go/ssa v0.29.0, z3 4.8.12 / z3 5.1.0 / cvc5 1.0; environment stubs of DESIGN.md §3.6; bounds as listed in the evidence file"
 checks={
+ "C06": dict(level="model_checking", ref="§5 C06",
+   text="Ties the reported number to the draws actually made. Wordlist recipes: two symbolic executions of Generate on one recipe; the solver shows that equal token sequences force equal word and separator draws (and equal capitalisation draws when every word is capitalisable), so no password has more preimages than the formula allows, and Entropy() is compared with log2 of the product of the draw bounds read off the draw log. Character recipes: Entropy() against log2 of the exact number of valid strings, which by C02 are equally likely, also after a call on a sibling recipe (catches stale values). Password.Entropy == recipe.Entropy() on every accepted path of the generation harnesses.",
+   technique="bounded symbolic execution of go/ssa + SMT (QF_BV), two-run injectivity queries over the draw log; float arithmetic concrete per path"),
  "C09": dict(level="model_checking", ref="§5 C09",
    text="The generators run in tape mode: the real randomUint32/randomUint32n are executed on symbolic source bytes, and the stub of the OS source fails at a harness-chosen read (every position within the bound) delivering 0..3 bytes, or returns short successful reads when the code calls the Reader directly. Assertions: after a failed read the call panics or returns an error and no password; every random word is built from four fresh bytes; two runs of one recipe on one stream agree. A path that reaches an unmodelled environment function (math/rand, time, ...) is stopped and reported, and a native determinism run (same recipe, same bytes, twice) is the confirmation channel for it.",
    technique="bounded symbolic execution of go/ssa + SMT (QF_BV) with fault injection at every read position; native replay and native determinism run"),
